@@ -291,13 +291,15 @@ class err_handler(object):
         """
         sout = ''
         node = self.cur_seg_node
-        if node is not None and node.id == 'SEG' and (self.seg_node_added or
-                (self.cur_st_node is not None and not self.cur_st_node.is_closed())):
+        held = False
+        if node is not None and node.id == 'SEG' and (self.seg_node_added or self.cur_st_node is not None):
+            # keep the error with its segment, under the transaction set opened last
             self._add_cur_seg()
             node.add_error(err_cde, err_str, err_value)
             self._touch(node)
-        else:
-            # Not in the body of an open transaction set: keep the error on the innermost loop still open
+            held = True
+        if not held or self.cur_st_node.is_closed():
+            # Not in the body of an open transaction set: the innermost loop still open carries the error too
             target = None
             for cand in (self.cur_st_node, self.cur_gs_node, self.cur_isa_node):
                 if cand is not None and not cand.is_closed():
@@ -305,11 +307,11 @@ class err_handler(object):
                     break
             if target is None:
                 target = self.cur_isa_node
-            if target is None:
-                sout += 'No current segment in error_handler. '
-            else:
+            if target is not None:
                 target.add_error({'ST': '5', 'GS': '1', 'ISA': '024'}[target.id], err_str)
                 self._touch(target)
+            elif not held:
+                sout += 'No current segment in error_handler. '
         if src_line:
             sout += 'Line:%i ' % (src_line)
         else:
